@@ -110,6 +110,10 @@ def C16(ctx):
     evs = read_ndjson(tp)
     os.unlink(tp)
     chunks = split_on(evs, lambda e: e["k"] == "reset")
+    if os.environ.get("VERIF_CORRUPT"):      # demonstration of binding: one corrupted field must make the check fail
+        e = next(e for e in chunks[0] if e["k"] == "sorted" and len(e["body"]) > 0)
+        e["db"][1] ^= 0x80
+        core.log("VERIF_CORRUPT: flipped the top bit of the 2nd db-key byte of one recorded sorted call")
     ctx.sample({"class": classes[0]})
     for k in ("node", "map", "sorted"):
         s = next((e for e in chunks[0] if e["k"] == k and len(e.get("body", [])) <= 30), None)
@@ -275,6 +279,13 @@ def _sbor_trace(ctx, prop, viol, n, chunks):
     os.unlink(tp)
     if any(len(e["b"]) > 340 for e in evs):
         raise ToolError("recorded payload longer than the TLA+ evaluation bound")
+    if os.environ.get("VERIF_CORRUPT"):      # demonstration of binding: one corrupted field must make the check fail
+        e = next(e for e in evs if e["k"] == "bytes" and e["dec64"] and e["cls"] == "random" and e["d"] == 64)
+        if prop == "C20":
+            e["re"][-1] ^= 1
+        else:
+            e["trav"] = False
+        core.log("VERIF_CORRUPT: corrupted %s of one recorded 'random' payload event" % ("the re-encoded bytes" if prop == "C20" else "the traverser verdict"))
     # binding self-test: corrupted copies of accepted events, appended to the recording; each must be BAD for the expected reason
     by = lambda pred: copy.deepcopy(next(e for e in evs if pred(e)))
     muts = []
@@ -326,10 +337,22 @@ def _sbor(ctx, prop):
     core.log("GenSborV + replay: %d cases, %.1fs" % (len(vcases), time.time() - t0)); t0 = time.time()
     bcases, gb = _sbor_replay(ctx, prop, viol, "GenSborB", "replayb", bconst)
     core.log("GenSborB + replay: %d cases, %.1fs" % (len(bcases), time.time() - t0)); t0 = time.time()
+    # non-vacuity of the explored universes (every wrap action / verdict class must occur)
+    kinds = {c["v"]["t"] for c in vcases}
+    need = [("all value forms", kinds >= {"bool", "int", "str", "arr", "tup", "enum", "map", "cust"}),
+            ("ill-kinded values", any(not c["wk"] for c in vcases)), ("invalid custom content", any(not c["cv"] for c in vcases)),
+            ("values of depth 3", any(c["depth"] >= 3 for c in vcases)),
+            ("accepted payloads of depth >= 3", any(c["acc"][-1] and not c["acc"][2] for c in bcases)),
+            ("payloads accepted at limit 1", any(c["acc"][1] for c in bcases)),
+            ("rejected payloads", any(not c["acc"][-1] for c in bcases)),
+            ("all flavours", {c["f"] for c in vcases} == {c["f"] for c in bcases} == {"basic", "scrypto", "manifest"})]
+    for what, ok in need:
+        if not ok:
+            raise ToolError("vacuous Sbor universe: no %s" % what)
     _sbor_selftest_g(ctx, prop, vcases, bcases)
     ctx.sample({"value_case": next(c for c in vcases if c["depth"] == 3 and len(json.dumps(c)) < 600)})
     ctx.sample({"bytes_case": next(c for c in bcases if c["acc"][-1] and len(c["b"]) >= 5)})
-    evs = _sbor_trace(ctx, prop, viol, 5000 if q else 100000, 10 if q else 12)
+    evs = _sbor_trace(ctx, prop, viol, 5000 if q else 100000, 6 if q else 12)
     core.log("TraceSbor: %d events, %.1fs" % (len(evs), time.time() - t0))
     ctx.sample({"trace_event": next(e for e in evs if e["k"] == "bytes" and e["cls"].startswith("mut") and len(e["b"]) < 40)})
     ctx.sample({"trace_event": next(e for e in evs if e["k"] == "bytes" and e["cls"].startswith("nest") and e["d"] == 2)})
@@ -398,8 +421,16 @@ def C28(ctx):
     t0 = time.time()
     acases = _replay_simple(ctx, viol, "Bech32m", "GenBech32m", "replayaddr", {"MaxTail": 1 if q else 2}, "bech32m")
     core.log("GenBech32m + replay: %d cases, %.1fs" % (len(acases), time.time() - t0)); t0 = time.time()
-    icases = _replay_simple(ctx, viol, "Ids", "GenIds", "replayids", {"MaxLen": 2 if q else 4}, "ids")
+    icases = _replay_simple(ctx, viol, "Ids", "GenIds", "replayids", {"MaxLen": 2 if q else 3}, "ids")
     core.log("GenIds + replay: %d cases, %.1fs" % (len(icases), time.time() - t0)); t0 = time.time()
+    muts_seen = {c["mut"] for c in acases}
+    if muts_seen != {"none", "subst", "upper", "mixed", "hrpswap", "othernet", "drop"}:
+        raise ToolError("vacuous Bech32m universe: mutations explored = %s" % sorted(muts_seen))
+    forms_seen = {c["id"][0]["f"] for c in icases if c["ok"]}
+    if forms_seen != {"str", "int", "bytes", "ruid"} or not any(not c["ok"] for c in icases):
+        raise ToolError("vacuous Ids universe: accepted forms = %s" % sorted(forms_seen))
+    if not any(c["ok"] for c in acases if c["mut"] == "upper") or any(c["ok"] for c in acases if c["mut"] in ("subst", "mixed", "hrpswap", "othernet")):
+        raise ToolError("Bech32m universe: unexpected verdict distribution")
     # binding self-test (G): wrong expectations must be reported
     a = copy.deepcopy(next(c for c in acases if c["mut"] == "none")); a["text"][-1] = 113 if a["text"][-1] != 113 else 112
     i1 = copy.deepcopy(next(c for c in icases if c["ok"] and c["id"][0]["f"] == "int")); i1["id"][0]["b"][-1] ^= 1
@@ -415,13 +446,17 @@ def C28(ctx):
     ctx.sample({"id_case": next(c for c in icases if c["ok"] and c["id"][0]["f"] == "bytes")})
     # T
     tp = ctx.wpath("ids-trace.ndjson")
-    vh(BIN, ["ids", "record", "seed=%d" % ctx.seed, "n=%d" % (1800 if q else 60000)], stdout_path=tp)
+    vh(BIN, ["ids", "record", "seed=%d" % ctx.seed, "n=%d" % (500 if q else 40000)], stdout_path=tp)
     evs = read_ndjson(tp)
     os.unlink(tp)
+    if os.environ.get("VERIF_CORRUPT"):      # demonstration of binding: one corrupted field must make the check fail
+        e = next(e for e in evs if e["k"] == "addr" and e.get("encok"))
+        e["others"][1]["ok"] = True
+        core.log("VERIF_CORRUPT: one recorded address now claims to be accepted on another network")
     by = lambda pred: copy.deepcopy(next(e for e in evs if pred(e)))
     muts = []
-    e = by(lambda e: e["k"] == "addr" and e.get("encok")); e["text"][-2] = 113 if e["text"][-2] != 113 else 112; muts.append((e, "encoded-text"))
-    e = by(lambda e: e["k"] == "addr" and e.get("encok")); e["others"][0]["ok"] = True; muts.append((e, "rejected-on-other-networks"))
+    e = by(lambda e: e["k"] == "addr" and e.get("encok") and not any(o["ok"] for o in e["others"])); e["text"][-2] = 113 if e["text"][-2] != 113 else 112; muts.append((e, "encoded-text"))
+    e = by(lambda e: e["k"] == "addr" and e.get("encok") and not any(o["ok"] for o in e["others"])); e["others"][0]["ok"] = True; muts.append((e, "rejected-on-other-networks"))
     e = by(lambda e: e["k"] == "text" and not e["r"]["ok"] and e["cls"] == "hrp-swap"); e["r"]["ok"] = True; muts.append((e, "decode-text"))
     e = by(lambda e: e["k"] == "text" and e["r"]["ok"]); e["r"]["typed"]["global"] = not e["r"]["typed"]["global"]; muts.append((e, "decode-text"))
     e = by(lambda e: e["k"] == "lid" and e["r"]["ok"] and e["r"]["id"][0]["f"] == "int"); e["r"]["id"][0]["b"][7] ^= 1; muts.append((e, "parsed-id"))
@@ -430,7 +465,7 @@ def C28(ctx):
     e = by(lambda e: e["k"] == "gid" and e["ok"]); e["res"][5] ^= 1; muts.append((e, "global-parsed"))
     e = by(lambda e: e["k"] == "tx"); e["forms"][0]["askind"][1] = True; muts.append((e, "tx"))
     e = by(lambda e: e["k"] == "lid"); e["panic"] = True; muts.append((e, "panic"))
-    bad = validate_calls_why("Ids", "TraceIds", "TraceIds", evs + [m for m, _ in muts], "C28-ids", chunks=12)
+    bad = validate_calls_why("Ids", "TraceIds", "TraceIds", evs + [m for m, _ in muts], "C28-ids", chunks=4 if q else 12)
     for j, (m, reason) in enumerate(muts):
         if reason not in bad.get(len(evs) + j, []):
             raise ToolError("binding self-test (T) failed: corrupted event not rejected for '%s' (got %s)" % (reason, bad.get(len(evs) + j)))
@@ -441,7 +476,7 @@ def C28(ctx):
                 viol.add("c28:%s:%s:%s" % (e["k"], (e.get("cls") or "-").split(":")[0], why),
                          "TraceIds: conjunct '%s' fails on recorded %s event (class %s): %s" % (why, e["k"], e.get("cls"), json.dumps(e)[:400]),
                          {"trace_module": "TraceIds", "event": e, "failed_conjuncts": bad[i]})
-    ctx.cov["traces_validated_against_impl"] += 12
+    ctx.cov["traces_validated_against_impl"] += 4 if q else 12
     ctx.cov["evaluations"] += len(evs)
     core.log("TraceIds: %d events, %.1fs" % (len(evs), time.time() - t0))
     for k in ("addr", "lid", "gid"):
@@ -465,7 +500,7 @@ def C28(ctx):
                     "only, missing network suffix); 4 transaction-hash kinds; local ids from random ids of the 4 forms, their mutants and "
                     "~50 crafted texts incl. non-ASCII; global ids in 8 shapes; all under catch_unwind and recomputed by TraceIds.  "
                     "distinct = distinct (network, text) address cases + distinct id texts + distinct recorded events"
-                    % (1 if q else 2, 2 if q else 4)}
+                    % (1 if q else 2, 2 if q else 3)}
 
 
 PROPS = {
@@ -502,12 +537,12 @@ PROPS = {
                      "by the decoders."),
     "C21": dict(fn=C21, level="model_checking", design_ref="5/C21",
                 technique="TLA+ spec Sbor (depth accounting of Parse / EncodeOk): TLC exhaustive on bounded universes + replay under depth "
-                          "limits 0,1,2,3,64 into decoder, VecTraverser and encoder + trace validation of adversarial traffic incl. "
+                          "limits 0..5,64 into decoder, VecTraverser and encoder + trace validation of adversarial traffic incl. "
                           "peak-heap measurement by TraceSbor",
                 text="The specification's decoder counts depth like the Value codec (root = 1, every child incl. every byte of an "
                      "Array(U8) one deeper).  TLC checks that a depth limit only cuts by depth and that EncodeOk(v,d) <=> Depth(v) <= d.  "
                      "For every generated value and byte string the real decoder, the real VecTraverser (run to completion) and the "
-                     "real encoder are run under the limits 0,1,2,3,64 (values: Depth-1, Depth, 64) and must agree with Accept.  "
+                     "real encoder are run under the limits 0..5 and 64 (values: Depth-1, Depth, 64) and must agree with Accept.  "
                      "Recorded traffic (nesting exactly at d-1,d,d+1 for d in {0,1,2,64} from every container kind, declared lengths "
                      "up to 2^28-1 on every header also nested 8 levels deep, random payloads and mutants) is validated by "
                      "TraceSbor: no panic (also in a set of typed decoders incl. TransactionResult, StateUpdates, InstructionV1/V2, "
